@@ -162,7 +162,7 @@ var propC20 = &propInfo{Engine: "C", Level: "exploration", Race: false, Instr: t
 	Rule:    "runs are plans generated from mix64(VERIF_SEED, property, run index): 2-4 (quick) / 2-8 (thorough) goroutines with 2-12 scripted calls each (increments with distinct power-of-two deltas, gets, puts of unique values, removes, inserts of unique tags, transactions incl. failing ones whose body can be pre-empted between its calls) on ONE shared Counter / Map / List object, plus a sync goroutine calling Sync() against a model server that also feeds operations of a remote replica; a seeded scheduler decides at every scheduling point (hook H6: lock acquisition, the begin/unlock windows of the transaction layer, pack creation and application) who runs next. Non-trivial: >= 2 goroutines and > 10 scheduling decisions; distinct = distinct hash of the sequence of (task, site) decisions.",
 	Oracles: []string{"C20.no-panic / process-crash (incl. runtime fatal errors such as unlock of an unlocked mutex)", "C20.no-deadlock", "C20.queued-once-in-order", "C20.tx-not-interleaved", "C20.no-lost-update (shared object == replay of the stream; counter == sum)", "C20.linearizable (porcupine, counter and map histories)", "C20.no-race (race detector; the baton is invisible to it)"},
 	Assumptions: []string{
-		"pre-emption happens only at the scheduling points compiled in under the tag verif (H6) and at calls the harness makes; code between two points runs atomically, so the explored interleavings are real ones but not all of them",
+		"the check runs on a scratch copy of the client library (bin/instr-src, made from /repo's working tree on every invocation) in which cmd/instr has inserted a scheduling point before every statement of internal/datatypes and internal/managers, plus the hand-placed points of hook H6; one in 2..32 (drawn per run) of the inserted points is a real hand-over. Pre-emption happens only at these points and at calls the harness makes: the explored interleavings are real ones but not all of them (code of other packages, e.g. the data structures under the transaction lock, runs atomically)",
 		"the hand-off between goroutines is a raw futex in //go:norace code, invisible to the race detector; every reported race is between accesses the program itself does not order",
 		"the server is a 40-line model (one log, duplicate rejection by client sequence number); MongoDB and the real server are engine B's business",
 	},
@@ -186,8 +186,8 @@ var propsB = map[string]*propInfo{
 		Rule: sprintf(ruleB, "at least one database fault fired (command error before/after applying, partial ordered insert, server crash before/after a command)"),
 		Oracles: []string{"C08.error-not-hang (every-call-returns)", "C08.client-crash / process-crash", "C08.acked-not-lost", "C08.log-gapless / exactly-once / recoverable", "C08.retry-converges"}},
 	"C11": {Rule: sprintf(ruleB, "at least one stored snapshot document was compared with a replay of its log prefix"),
-		Oracles: []string{"C11.snapshot-equals-prefix", "C11.userdoc-equals-prefix", "C11.version-monotone", "C11.rebuild-paths-agree (server rebuild == full replay)", "C11.snapshot-catches-up"}},
-	"C12": {Race: true, QuickS: 60, Rule: sprintf(ruleB, "at least two requests were released at the same simulated instant and their database commands interleaved"),
+		Oracles: []string{"C11.snapshot-equals-prefix", "C11.userdoc-equals-prefix", "C11.version-monotone", "C11.rebuild-paths-agree (server rebuild == full replay)"}},
+	"C12": {Race: true, QuickS: 60, Rule: sprintf(ruleB, "at least two requests were released at the same simulated instant and their database commands interleaved (race-detector build of a scratch copy of the server in which cmd/instr has inserted a scheduling point before every statement that touches a synchronisation object; in 2 of 3 plans these points are seams of the simulator, probe server-scheduling-point; orda's log lines are formatted and written to io.Discard; rogue requests and pairs of overlapping REST patches are mixed into the traffic)"),
 		Oracles: []string{"C12.log invariants (result equals some one-at-a-time order)", "C12.every-call-returns", "C12.process-crash", "C12.no-race (race detector over the explored deterministic schedules)"}},
 	"C13": {Rule: sprintf(ruleB, "a datatype was entered by subscribe or subscribe-or-create, or an entry was refused"),
 		Oracles: []string{"C13.refused-cleanly", "C13.one-datatype-per-key", "C13.first-state", "C13.subscribed-once"}},
